@@ -13,67 +13,115 @@ namespace SA.Pipe
 
 structure DInv (B : List Nat) (s : St) : Prop where
   uFin : s.uFin = false
+  uGone : s.uGone = false
   uIn : s.uIn = []
   pre : s.mainDone = false →
     s.dClosed = false ∧ s.uClosed = false ∧ s.cu = .copying ∧ s.chU = 0 ∧
-    (s.cd = .copying → s.uOut ++ s.dIn.flatten = B) ∧ (s.cd ≠ .copying → s.uOut = B)
+    (s.cd = .copying → s.uOut ++ s.dIn.flatten = B) ∧
+    (∀ ch, s.cd = .writing ch → s.uOut ++ ch ++ s.dIn.flatten = B) ∧
+    ((∀ ch, s.cd ≠ .writing ch) → s.cd ≠ .copying → s.uOut = B)
   post : s.mainDone = true → s.uOut = B ∧ s.uClosed = true ∧ s.cd = .done
 
 theorem dinv_init (dIn : List (List Nat)) : DInv dIn.flatten (init dIn []) := by
   constructor <;> simp [init]
 
+/-- the other side neither finishes nor disappears on its own -/
+def UpSilent (a : Act) : Prop := a ≠ .finUp ∧ a ≠ .goneUp
+
 theorem step_dinv (c : Cfg) (hc : c.ArmsOk) (B : List Nat) {s s' : St} (hi : Inv s) (h : DInv B s) (a : Act)
-    (ha : a ≠ .finUp) (hs : step c s a = some s') : DInv B s' := by
+    (ha : UpSilent a) (hs : step c s a = some s') : DInv B s' := by
+  have flagsOnly : ∀ t : St, t.uFin = s.uFin → t.uGone = s.uGone → t.uIn = s.uIn → t.mainDone = s.mainDone →
+      t.dClosed = s.dClosed → t.uClosed = s.uClosed → t.cu = s.cu → t.chU = s.chU → t.cd = s.cd →
+      t.uOut = s.uOut → t.dIn = s.dIn → DInv B t := by
+    intro t e1 e2 e3 e4 e5 e6 e7 e8 e9 e10 e11
+    refine ⟨by rw [e1]; exact h.uFin, by rw [e2]; exact h.uGone, by rw [e3]; exact h.uIn, ?_, ?_⟩
+    · rw [e4, e5, e6, e7, e8, e9, e10, e11]; exact h.pre
+    · rw [e4, e6, e9, e10]; exact h.post
   cases a with
-  | finUp => exact absurd rfl ha
+  | finUp => exact absurd rfl ha.1
+  | goneUp => exact absurd rfl ha.2
   | finDown =>
     simp only [step] at hs; split at hs
     · simp at hs
-    · simp at hs; subst hs; exact ⟨h.uFin, h.uIn, h.pre, h.post⟩
+    · simp at hs; subst hs; exact flagsOnly _ rfl rfl rfl rfl rfl rfl rfl rfl rfl rfl rfl
+  | goneDown =>
+    simp only [step] at hs; split at hs
+    · simp at hs
+    · simp at hs; subst hs; exact flagsOnly _ rfl rfl rfl rfl rfl rfl rfl rfl rfl rfl rfl
+  | stallDown =>
+    simp only [step] at hs; split at hs
+    · simp at hs
+    · simp at hs; subst hs; exact flagsOnly _ rfl rfl rfl rfl rfl rfl rfl rfl rfl rfl rfl
+  | stallUp =>
+    simp only [step] at hs; split at hs
+    · simp at hs
+    · simp at hs; subst hs; exact flagsOnly _ rfl rfl rfl rfl rfl rfl rfl rfl rfl rfl rfl
   | stepD =>
     simp only [step] at hs
     split at hs
-    · simp at hs
     · rename_i hcd
-      have hcd : s.cd = .copying := by simpa using hcd
       have hnm : s.mainDone = false := by
         cases hm : s.mainDone with
         | false => rfl
         | true => have := (h.post hm).2.2; simp [hcd] at this
-      obtain ⟨p1, p2, p3, p4, p5, _⟩ := h.pre hnm
+      obtain ⟨p1, p2, p3, p4, p5, p6, p7⟩ := h.pre hnm
       have hB := p5 hcd
       simp [p1] at hs
       split at hs
       · rename_i chunk rest hin
-        simp [p2, h.uFin] at hs; subst hs
-        refine ⟨by simp [h.uFin], by simp [h.uIn], ?_, ?_⟩
-        · intro _
-          refine ⟨by simp [p1], by simp [p2], by simp [p3], by simp [p4], ?_, ?_⟩
-          · intro _; simp only; rw [hin] at hB; simpa using hB
-          · intro hne; simp [hcd] at hne
-        · intro hm; simp [hnm] at hm
+        simp at hs; subst hs
+        refine ⟨by simp [h.uFin], by simp [h.uGone], by simp [h.uIn], ?_, by intro hm; simp [hnm] at hm⟩
+        intro _
+        refine ⟨by simp [p1], by simp [p2], by simp [p3], by simp [p4], by simp, ?_, ?_⟩
+        · intro ch hch; simp at hch; subst hch; simp only; rw [hin] at hB; simpa using hB
+        · intro hnw; exact absurd rfl (hnw chunk)
       · rename_i hin
         split at hs
         · simp at hs; subst hs
-          refine ⟨by simp [h.uFin], by simp [h.uIn], ?_, ?_⟩
-          · intro _
-            refine ⟨by simp [p1], by simp [p2], by simp [p3], by simp [p4], by simp, ?_⟩
-            intro _; simp only; rw [hin] at hB; simpa using hB
-          · intro hm; simp [hnm] at hm
+          refine ⟨by simp [h.uFin], by simp [h.uGone], by simp [h.uIn], ?_, by intro hm; simp [hnm] at hm⟩
+          intro _
+          refine ⟨by simp [p1], by simp [p2], by simp [p3], by simp [p4], by simp, by simp, ?_⟩
+          intro _ _; simp only; rw [hin] at hB; simpa using hB
         · simp at hs
+    · rename_i chunk hcd
+      have hnm : s.mainDone = false := by
+        cases hm : s.mainDone with
+        | false => rfl
+        | true => have := (h.post hm).2.2; simp [hcd] at this
+      obtain ⟨p1, p2, p3, p4, p5, p6, p7⟩ := h.pre hnm
+      have hB := p6 chunk hcd
+      simp [p2, h.uGone] at hs
+      obtain ⟨_, hs⟩ := hs
+      subst hs
+      refine ⟨by simp [h.uFin], by simp, by simp [h.uIn], ?_, by intro hm; simp [hnm] at hm⟩
+      intro _
+      refine ⟨by simp [p1], by simp, by simp [p3], by simp [p4], ?_, by simp, by simp⟩
+      intro _; simpa using hB
+    · simp at hs
   | stepU =>
     simp only [step] at hs
-    split at hs
-    · simp at hs
-    · rename_i hcu
-      cases hm : s.mainDone with
-      | false =>
-        obtain ⟨p1, p2, p3, p4, p5, p6⟩ := h.pre hm
-        simp [p2, h.uIn, h.uFin] at hs
-      | true =>
-        obtain ⟨q1, q2, q3⟩ := h.post hm
-        simp [q2] at hs; subst hs
-        exact ⟨by simp [h.uFin], by simp [h.uIn], by intro hf; simp [hm] at hf, fun _ => ⟨by simp [q1], by simp [q2], by simp [q3]⟩⟩
+    cases hm : s.mainDone with
+    | false =>
+      obtain ⟨p1, p2, p3, p4, _, _, _⟩ := h.pre hm
+      simp [p3, p2, h.uIn, h.uFin] at hs
+    | true =>
+      obtain ⟨q1, q2, q3⟩ := h.post hm
+      have keep : ∀ t : St, t.uFin = s.uFin → t.uGone = s.uGone → t.uIn = [] → t.mainDone = s.mainDone →
+          t.uOut = s.uOut → t.uClosed = s.uClosed → t.cd = s.cd → DInv B t := by
+        intro t e1 e2 e3 e4 e5 e6 e7
+        exact ⟨by rw [e1]; exact h.uFin, by rw [e2]; exact h.uGone, e3, by rw [e4, hm]; intro hf; simp at hf,
+          fun _ => ⟨by rw [e5]; exact q1, by rw [e6]; exact q2, by rw [e7]; exact q3⟩⟩
+      split at hs
+      · simp [q2] at hs; subst hs
+        exact keep _ (by simp) (by simp) (by simp [h.uIn]) (by simp) (by simp) (by simp [q2]) (by simp)
+      · split at hs
+        · simp at hs; subst hs
+          exact keep _ (by simp) (by simp) (by simp [h.uIn]) (by simp) (by simp) (by simp) (by simp)
+        · split at hs
+          · simp at hs
+          · simp at hs; subst hs
+            exact keep _ (by simp) (by simp) (by simp [h.uIn]) (by simp) (by simp) (by simp) (by simp)
+      · simp at hs
   | sendD =>
     simp only [step] at hs
     split at hs
@@ -82,17 +130,17 @@ theorem step_dinv (c : Cfg) (hc : c.ArmsOk) (B : List Nat) {s s' : St} (hi : Inv
         cases hm : s.mainDone with
         | false => rfl
         | true => have := (h.post hm).2.2; simp [hcd] at this
-      obtain ⟨p1, p2, p3, p4, p5, p6⟩ := h.pre hnm
-      have hB := p6 (by simp [hcd])
+      obtain ⟨p1, p2, p3, p4, p5, p6, p7⟩ := h.pre hnm
+      have hB := p7 (by simp [hcd]) (by simp [hcd])
       split at hs
       · simp at hs; subst hs
-        exact ⟨h.uFin, h.uIn, fun _ => ⟨p1, p2, p3, p4, by simp, fun _ => hB⟩, by intro hm; simp [hnm] at hm⟩
+        exact ⟨h.uFin, h.uGone, h.uIn, fun _ => ⟨p1, p2, p3, p4, by simp, by simp, fun _ _ => hB⟩, by intro hm; simp [hnm] at hm⟩
       · split at hs
         · simp at hs; subst hs
           have m := mainArm_ctl c s true r
           have mc := mainArm_closes c hc s r
-          refine ⟨by simp [m.2.2.2.2.2.2.2.2.2.2.2.2]; exact h.uFin, by simp [m.2.2.2.2.2.2.2.2.1]; exact h.uIn,
-            by simp [m.2.2.2.2.1], ?_⟩
+          refine ⟨by simp [m.2.2.2.2.2.2.2.2.2.2.2.2.1]; exact h.uFin, by simp [m.2.2.2.2.2.2.2.2.2.2.2.2.2.2.1]; exact h.uGone,
+            by simp [m.2.2.2.2.2.2.2.2.1]; exact h.uIn, by simp [m.2.2.2.2.1], ?_⟩
           intro _
           exact ⟨by simp [m.2.2.2.2.2.2.2.2.2.2.1]; exact hB, by simpa using mc.1, rfl⟩
         · simp at hs
@@ -107,7 +155,7 @@ theorem step_dinv (c : Cfg) (hc : c.ArmsOk) (B : List Nat) {s s' : St} (hi : Inv
         obtain ⟨q1, q2, q3⟩ := h.post hm
         split at hs
         · simp at hs; subst hs
-          exact ⟨h.uFin, h.uIn, by intro hf; simp [hm] at hf, fun _ => ⟨q1, q2, q3⟩⟩
+          exact ⟨h.uFin, h.uGone, h.uIn, by intro hf; simp [hm] at hf, fun _ => ⟨q1, q2, q3⟩⟩
         · simp [hm] at hs
     · simp at hs
   | recvD =>
@@ -116,14 +164,14 @@ theorem step_dinv (c : Cfg) (hc : c.ArmsOk) (B : List Nat) {s s' : St} (hi : Inv
     · rename_i hg
       simp at hs; subst hs
       have hnm : s.mainDone = false := by simpa using hg.1
-      obtain ⟨p1, p2, p3, p4, p5, p6⟩ := h.pre hnm
+      obtain ⟨p1, p2, p3, p4, p5, p6, p7⟩ := h.pre hnm
       have hch : s.chD = 1 := by have := hi.chD_le; omega
       have hcd := hi.chD_done hch
-      have hB := p6 (by simp [hcd])
+      have hB := p7 (by simp [hcd]) (by simp [hcd])
       have m := mainArm_ctl c { s with chD := s.chD - 1 } true s.chDr
       have mc := mainArm_closes c hc { s with chD := s.chD - 1 } s.chDr
-      refine ⟨by rw [m.2.2.2.2.2.2.2.2.2.2.2.2]; exact h.uFin, by rw [m.2.2.2.2.2.2.2.2.1]; exact h.uIn,
-        by simp [m.2.2.2.2.1], ?_⟩
+      refine ⟨by rw [m.2.2.2.2.2.2.2.2.2.2.2.2.1]; exact h.uFin, by rw [m.2.2.2.2.2.2.2.2.2.2.2.2.2.2.1]; exact h.uGone,
+        by rw [m.2.2.2.2.2.2.2.2.1]; exact h.uIn, by simp [m.2.2.2.2.1], ?_⟩
       intro _
       exact ⟨by rw [m.2.2.2.2.2.2.2.2.2.2.1]; exact hB, mc.1, by rw [m.1]; exact hcd⟩
     · simp at hs
@@ -144,7 +192,7 @@ theorem step_dinv (c : Cfg) (hc : c.ArmsOk) (B : List Nat) {s s' : St} (hi : Inv
       obtain ⟨q1, q2, q3⟩ := h.post hm
       have key : ∀ t : St, SameCtl s t → DInv B { t with callerDone := true } := by
         intro t ht
-        exact ⟨by simp [ht.uFin]; exact h.uFin, by simp [ht.uIn]; exact h.uIn,
+        exact ⟨by simp [ht.uFin]; exact h.uFin, by simp [ht.uGone]; exact h.uGone, by simp [ht.uIn]; exact h.uIn,
           by simp [ht.mainDone, hm],
           fun _ => ⟨by simp [ht.uOut]; exact q1, ht.uMono q2, by simp [ht.cd]; exact q3⟩⟩
       cases c.caller with
@@ -154,12 +202,12 @@ theorem step_dinv (c : Cfg) (hc : c.ArmsOk) (B : List Nat) {s s' : St} (hi : Inv
     · simp at hs
 
 theorem run_dinv (c : Cfg) (hc : c.ArmsOk) (B : List Nat) {s : St} (hi : Inv s) (h : DInv B s) (acts : List Act)
-    (hn : Act.finUp ∉ acts) : DInv B (run c s acts) := by
+    (hn : ∀ a ∈ acts, UpSilent a) : DInv B (run c s acts) := by
   induction acts generalizing s with
   | nil => exact h
   | cons a as ih =>
-    have ha : a ≠ .finUp := fun e => hn (by simp [e])
-    have hn' : Act.finUp ∉ as := fun e => hn (by simp [e])
+    have ha : UpSilent a := hn a (by simp)
+    have hn' : ∀ a ∈ as, UpSilent a := fun a h => hn a (by simp [h])
     simp only [run]
     split
     · rename_i s' hs; exact ih (step_inv c hc hi a hs) (step_dinv c hc B hi h a ha hs) hn'
@@ -169,7 +217,7 @@ theorem run_dinv (c : Cfg) (hc : c.ArmsOk) (B : List Nat) {s : St} (hi : Inv s) 
     stays silent and open.  For every schedule, whenever PipeData has returned, the other side has
     been handed exactly `B` and has been closed afterwards; the copier of that direction has exited. -/
 theorem C17_close_delivers_all (c : Cfg) (hc : c.ArmsOk) (dIn : List (List Nat)) (acts : List Act)
-    (hn : Act.finUp ∉ acts) :
+    (hn : ∀ a ∈ acts, UpSilent a) :
     let s := run c (init dIn []) acts
     s.mainDone = true → s.uOut = dIn.flatten ∧ s.uClosed = true ∧ s.cd = .done := by
   intro s hm
@@ -178,19 +226,22 @@ theorem C17_close_delivers_all (c : Cfg) (hc : c.ArmsOk) (dIn : List (List Nat))
 /-- before the pipe ends nothing is invented or reordered: what the other side has been handed plus
     what is still to be copied is always `B` -/
 theorem C17_prefix_until_close (c : Cfg) (hc : c.ArmsOk) (dIn : List (List Nat)) (acts : List Act)
-    (hn : Act.finUp ∉ acts) :
+    (hn : ∀ a ∈ acts, UpSilent a) :
     let s := run c (init dIn []) acts
-    s.mainDone = false → s.cd = .copying → s.uOut ++ s.dIn.flatten = dIn.flatten := by
-  intro s hm hcd
-  exact ((run_dinv c hc dIn.flatten (init_inv dIn []) (dinv_init dIn) acts hn).pre hm).2.2.2.2.1 hcd
+    s.mainDone = false →
+      (s.cd = .copying → s.uOut ++ s.dIn.flatten = dIn.flatten) ∧
+      (∀ ch, s.cd = .writing ch → s.uOut ++ ch ++ s.dIn.flatten = dIn.flatten) := by
+  intro s hm
+  have h := (run_dinv c hc dIn.flatten (init_inv dIn []) (dinv_init dIn) acts hn).pre hm
+  exact ⟨h.2.2.2.2.1, h.2.2.2.2.2.1⟩
 
 /-- **progress to the end**: with the current configuration the close does happen — in a quiescent state
     after the peer's close has become visible and all data has been read, PipeData has returned. -/
 theorem C17_close_happens (c : Cfg) (hc : c.ArmsOk) (hcap : 1 ≤ c.cap) (dIn : List (List Nat)) (acts : List Act)
-    (hn : Act.finUp ∉ acts) :
+    (hn : ∀ a ∈ acts, UpSilent a) :
     let s := run c (init dIn []) acts
-    quiescent c s = true → s.dFin = true → s.mainDone = true := by
-  intro s hq hf
+    quiescent c s = true → s.dFin = true → s.uStall = false → s.mainDone = true := by
+  intro s hq hf hus
   have hinv : Inv s := run_inv c hc (init_inv dIn []) acts
   have hd : DInv dIn.flatten s := run_dinv c hc dIn.flatten (init_inv dIn []) (dinv_init dIn) acts hn
   clear_value s
@@ -200,13 +251,15 @@ theorem C17_close_happens (c : Cfg) (hc : c.ArmsOk) (hcap : 1 ≤ c.cap) (dIn : 
   | true => rfl
   | false =>
     exfalso
-    obtain ⟨p1, p2, p3, p4, _, _⟩ := hd.pre hm
+    obtain ⟨p1, p2, p3, p4, _, _, _⟩ := hd.pre hm
     cases hcd : s.cd with
     | copying =>
       simp only [step, hcd, p1] at hD
       cases hin : s.dIn with
       | nil => simp [hin, hf] at hD
-      | cons ch rest => simp [hin, p2, hd.uFin] at hD
+      | cons ch rest => simp [hin] at hD
+    | writing ch =>
+      simp [step, hcd, p2, hd.uGone, hus] at hD
     | sending r =>
       have h0 : s.chD = 0 := by
         rcases Nat.lt_or_ge s.chD 1 with h0 | h1
@@ -220,7 +273,7 @@ theorem C17_close_happens (c : Cfg) (hc : c.ArmsOk) (hcap : 1 ≤ c.cap) (dIn : 
       simp [step, hm, this] at hrD
 
 example : let c := genCfg .both
-    let s := run c (init [[1, 2], [3]] []) [.stepD, .finDown, .stepD, .stepD, .sendD, .recvD, .stepU, .sendU, .callerClose]
+    let s := run c (init [[1, 2], [3]] []) [.stepD, .stepD, .finDown, .stepD, .stepD, .stepD, .sendD, .recvD, .stepU, .sendU, .callerClose]
     s.mainDone = true ∧ s.uOut = [1, 2, 3] ∧ s.uClosed = true := by decide
 
 end SA.Pipe
